@@ -28,6 +28,29 @@ RULES = {
 }
 
 
+# the frontends built on top of the plain solvers (oracle only): a give-up inside a child / the actual / the exact solver must
+# leave them as usable as before
+SAT = lambda s=0: {"s": s, "op": "satisfiable", "extra": []}  # noqa: E731
+RULES_OTHERS = {
+    "unsat-child-pending": [A("y == 6"), A("ULT(x, 3)"), A("UGE(x, 8)"), SAT(), SAT(), E("y", 5)],
+    "two-children-pending": [A("ULT(z, 2)"), A("SLT(y, 0)"), A("Or(x == 1, x == 2)"), A("x == 5"), SAT(), E("z", 5), SAT()],
+    "sat-children-then-add": [A("ULT(x, 3)"), A("y == 6"), SAT(), A("UGE(x, 8)"), SAT(), SAT(), E("x", 5)],
+    "extra-then-plain": [A("ULT(x, 3)"), A("y == 6"), {"s": 0, "op": "satisfiable", "extra": ["UGE(x, 8)"]}, SAT(), E("x", 5)],
+}
+OTHERS = ("SolverComposite", "SolverHybrid", "SolverReplacement")
+
+
+def jobs_others(ctx, mult=1):
+    jobs = []
+    for cls in OTHERS:
+        for name, h in RULES_OTHERS.items():
+            jobs.append({"cls": cls, "cfg": {"track": False, "reuse": False}, "hist": h, "faults_n": "all" if ctx.thorough() or cls == "SolverComposite" else 4})
+        lens = ctx.pick([6, 10, 14], [8, 14, 24])
+        for i in range(ctx.pick(8, 70) * mult):
+            jobs.append({"cls": cls, "cfg": {"track": False, "reuse": i % 3 == 0}, "len": lens[i % len(lens)], "faults_n": ctx.pick(4, 12)})
+    return jobs
+
+
 def jobs_for(ctx, mult=1):
     jobs = []
     for cls in ("Solver", "SolverCacheless"):
@@ -52,7 +75,8 @@ def run(ctx):
     ]
     ctx.cov["rule"] = ("for each base history (rule-directed: blocking clauses, batch_eval, extrema, satisfiable/solution, shared solver after "
                        "branch; random of length <= 14 quick / 24 thorough) a give-up is injected at check j of call k for sampled (quick) or all "
-                       "(thorough, rule-directed) positions; every later answer of every solver of the history is judged; non-trivial = faulted history")
+                       "(thorough, rule-directed) positions; every later answer of every solver of the history is judged; the same on SolverComposite (pending / unsatisfiable children), "
+                       "SolverHybrid and SolverReplacement, oracle only; non-trivial = faulted history")
     tie_ok = True
     try:
         write_if_changed(os.path.join(LEAN, "Claripy", "Gen", "SolverMro.lean"), ts.render(ts.translate()))
@@ -74,10 +98,16 @@ def run(ctx):
     for mm in m["mismatch"][:3]:
         ctx.tie_broken("corr:%s.%s" % (mm["cls"], mm["op"].get("op", "?")),
                        "%s differs after %s (%s); model=%s real=%s" % ("/".join(mm["differs"]), mm["op"], mm["cfg"], mm["model"][:400], mm["real"][:400]))
+    mo = SC.run_jobs(ctx, jobs_others(ctx), workers, corr=False, chunk_size=ctx.pick(4, 6))
+    SC.merge_cov(ctx, mo, "fault-injection(composite, hybrid, replacement)")
+    ctx.cov["input_distribution"]["fault-injection(composite, hybrid, replacement)"]["faulted_histories"] = mo["faulted"]
+    fails += mo["fails"]
     if ctx.broken and not fails:
         m2 = SC.run_jobs(ctx, jobs_for(ctx, mult=3), workers, corr=True, chunk_size=6)
         SC.merge_cov(ctx, m2, "failing-input-search")
         fails += m2["fails"]
+    # the open C13 finding (constant answers without consulting the constraints) shows with or without a give-up: it keeps its own signature
+    fails = [f for f in fails if not f["fails"][0][1].endswith(":replaced-to-constant")]
     # failures of un-faulted histories belong to C11
     SC.report_failures(ctx, "C17", [f for f in fails if any(d.get("fault") is not None for d in f["hist"])])
     other = [f for f in fails if not any(d.get("fault") is not None for d in f["hist"])]
